@@ -217,7 +217,19 @@ META["C11"] = dict(
          "C11_low_use_visit (the one-visit step of draining; the cycle bound is shown on a decide example, not by induction). Findings "
          "recorded as observations (decide runs in the file; none contradicts the statement): a stale resume point wastes one index GC "
          "cycle; after a RESUMED index cycle the fixed point needs one more cycle; a primary file released while it was not the oldest "
-         "stays in the visited set as a zero-length file and, once it is the first file, blocks every later unlink until a reopen.",
+         "stays in the visited set as a zero-length file and, once it is the first file, blocks every later unlink until a reopen. "
+         "CLOSED FORMS (Sth/Props/C11D-G.lean): C11_low_use_drained_bound (a low-use closed file with n record spans in use is released "
+         "after ceil(n/2) rounds of cycle+flush and one more complete cycle, by induction over the rounds; C11_low_use_round is the step), "
+         "C11_index_cycle_visits_all / C11_index_cycle_stale_resume (a complete index cycle reaches every non-current file; what a stale "
+         "resume point costs), C11_primary_files_short and C11_visited_stable (invariants of every reachable state: every primary file is "
+         "shorter than file limit + 4 + largest record, and every visited file without a record span is empty), and from them "
+         "C11_primary_file_released_closed: the release of a dead primary file by ONE complete cycle with premises on the configuration "
+         "and the calls only (RecBoundOK: file limit + largest record < 2^31; PassesOK: no cycle of the history was cut short inside its "
+         "hand-over passes). The proof attempt without PassesOK produced a reachable counterexample (a cycle cut after deleteRecords "
+         "dropped the affected set; the file stayed visited for good): defect D33, reproduced on the real code through the exported "
+         "MultihashPrimary.GC(ctx), repaired by fix commit 552b64c; the model carries the repair and C11_cut_handover_pass_file_released "
+         "records the repaired run (PassesOK is now stronger than needed and kept as stated). 40% of the c11 histories contain a cycle "
+         "whose context expires inside the hand-over pass.",
     note=SEQ_NOTE,
 )
 META["C13"] = dict(
